@@ -13,6 +13,13 @@ combination of
 and the returned value is judged by an oracle written from the property statement only.  A second leg
 performs real in-memory TLS handshakes (stdlib ``ssl`` client with MemoryBIOs against the pyOpenSSL
 connection) and applies the same oracle to ``selected_alpn_protocol()`` as seen by the client.
+
+A third leg runs two-handshake *histories on one client connection* (secure web proxy, TLS over TLS): the real
+``ClientTLSLayer`` is driven sans-io with the real TlsConfig hooks (tls_clienthello, tls_start_client, ...) for an outer
+handshake (client without ALPN / offering lists with or without http/1.1), then -- on the same Context and Client object,
+after the CONNECT, with the upstream protocol known or unknown -- a second, inner ``ClientTLSLayer`` handshake with its
+own offer list.  The oracle is unchanged: outer = secure-web-proxy rule, inner = offered-or-none, upstream-or-none, no h2
+when disabled.
 """
 import itertools
 import ssl
@@ -22,6 +29,9 @@ from OpenSSL import SSL
 
 from mitmproxy import connection
 from mitmproxy import tls
+from mitmproxy.proxy import commands
+from mitmproxy.proxy import events
+from mitmproxy.proxy import layer as mlayer
 from mitmproxy.addons import tlsconfig
 from mitmproxy.proxy import context
 from mitmproxy.proxy import layers
@@ -36,13 +46,17 @@ TECHNIQUE = "exhaustive enumeration of the ALPN decision table + real in-memory 
 BUDGET = {"quick": (1_200, 18), "thorough": (6_000, 200)}
 WORKERS = {"quick": 2, "thorough": 16}
 REQUIRED = ["callback.offered_or_none", "callback.upstream_or_none", "callback.no_h2_when_disabled",
-            "callback.outer_http11_only", "callback.selected_some", "handshake.oracle", "handshake.selected_some"]
+            "callback.outer_http11_only", "callback.selected_some", "handshake.oracle", "handshake.selected_some",
+            "history.outer.oracle", "history.inner.oracle", "history.inner.selected_some", "history.inner_after_outer_alpn"]
 RULE = (
     "case = (layer stack, upstream ALPN, http2 option, client offer list); the callback leg enumerates all 3 x 8 x 2 x 259 "
     "combinations (offer lists of length<=3 over 6 protocol classes, ordered, with repetition) in both tiers; the handshake "
     "leg runs real TLS handshakes for all offer lists of length<=2 (quick) / <=3 plus random longer lists with random unknown "
-    "protocol names (thorough), and a client without ALPN extension; distinct = distinct (leg, stack, upstream, http2, offer "
-    "classes) combination; non-trivial = the client offers at least one protocol"
+    "protocol names (thorough), and a client without ALPN extension; the history leg runs outer+inner handshakes on one client "
+    "connection through the real ClientTLSLayer: outer offer in {no ALPN, [http/1.1], [h2,http/1.1], [h2], [x-unknown,http/1.1]} x "
+    "upstream x http2 x inner offer (quick: 13 lists incl. every single protocol and pairs containing the outer protocol; "
+    "thorough: all lists of length<=2 plus random ones); distinct = distinct (leg, stack, upstream, http2, offer "
+    "classes[, outer offer]) combination; non-trivial = the client offers at least one protocol"
 )
 ASSUMPTIONS = [
     "client.alpn is not pre-set by a user addon (the secure-web-proxy override is exercised through the real layer stack)",
@@ -99,6 +113,8 @@ class World:
         self.ta = tlsconfig.TlsConfig()
         self.tctx_cm = taddons.context(self.ta)
         self.tctx = self.tctx_cm.__enter__()
+        # normally registered by the proxyserver addon; read by TlsConfig.tls_clienthello ("eager" is the default)
+        self.tctx.options.add_option("connection_strategy", str, "eager", "")
         self.tctx.configure(self.ta, confdir=tempfile.mkdtemp(prefix="vf-c18-"))
         self.http2 = None
 
@@ -186,6 +202,121 @@ def handshake(conn: SSL.Connection, offers):
     return None, None
 
 
+# ---- two-handshake histories on one client connection (real ClientTLSLayer, sans-io) ----------------------------------------
+
+class Sink(mlayer.Layer):
+    """Stand-in for whatever sits on top of a TLS layer (the HTTP layer)."""
+
+    def _handle_event(self, event):
+        yield from ()
+
+
+OUTER_OFFERS = [None, (b"http/1.1",), (b"h2", b"http/1.1"), (b"h2",), (b"x-unknown", b"http/1.1")]
+INNER_QUICK = [None, ()] + [(p,) for p in PROTOS] + [(b"h2", b"http/1.1"), (b"http/1.1", b"h2"), (b"h3", b"http/1.1"),
+                                                         (b"x-unknown", b"http/1.1"), (b"http/1.0", b"http/1.1")]
+
+
+def layer_handshake(w, lyr, client_conn, offers):
+    """Full TLS handshake of a stdlib ssl client against a ClientTLSLayer; hooks go to the real TlsConfig addon.
+    -> (ALPN the client observes or NONE, list of hook names) or (None, hooks) if the handshake did not complete."""
+    cctx = ssl.SSLContext(ssl.PROTOCOL_TLS_CLIENT)
+    cctx.check_hostname = False
+    cctx.verify_mode = ssl.CERT_NONE
+    if offers:
+        cctx.set_alpn_protocols([o.decode("latin-1") for o in offers])
+    inc, out = ssl.MemoryBIO(), ssl.MemoryBIO()
+    c = cctx.wrap_bio(inc, out, server_hostname="example.com")
+    hooks = []
+
+    def pump(event):
+        queue = [event]
+        while queue:
+            ev = queue.pop(0)
+            for cmd in lyr.handle_event(ev):
+                if isinstance(cmd, commands.StartHook):
+                    hooks.append(cmd.name)
+                    if isinstance(cmd, mlayer.NextLayerHook):
+                        cmd.data.layer = Sink(cmd.data.context)
+                    elif hasattr(w.ta, cmd.name):
+                        getattr(w.ta, cmd.name)(*cmd.args())
+                    queue.append(events.HookCompleted(cmd, None))
+                elif isinstance(cmd, commands.SendData):
+                    inc.write(cmd.data)
+                elif isinstance(cmd, commands.Log):
+                    pass
+                else:
+                    raise AssertionError(f"unexpected command {cmd!r}")
+
+    pump(events.Start())
+    for _ in range(12):
+        done = False
+        try:
+            c.do_handshake()
+            done = True
+        except ssl.SSLWantReadError:
+            pass
+        data = out.read()
+        if data:
+            pump(events.DataReceived(client_conn, data))
+        if done and not data:
+            sel = c.selected_alpn_protocol()
+            return (sel.encode("latin-1") if sel is not None else NONE), hooks
+    return None, hooks
+
+
+def run_history(ctx, w, outer_offers, upstream, http2, inner_offers):
+    """-> outcome tag"""
+    if w.http2 != http2:
+        w.tctx.configure(w.ta, http2=http2)
+        w.http2 = http2
+    client = connection.Client(peername=("192.0.2.1", 51234), sockname=("127.0.0.1", 8080), timestamp_start=1.0,
+                               state=connection.ConnectionState.OPEN)
+    c = context.Context(client, w.tctx.options)
+    c.server.address = ("example.com", 443)
+    wit = {"outer_offers": list(outer_offers) if outer_offers is not None else None, "upstream": upstream, "http2": http2,
+           "inner_offers": list(inner_offers) if inner_offers is not None else None}
+    # 1. secure web proxy: outer TLS between client and proxy
+    modes.HttpProxy(c)
+    outer = layers.ClientTLSLayer(c)
+    sel_outer, hooks = layer_handshake(w, outer, client, outer_offers)
+    if sel_outer is None or not client.tls_established:
+        ctx.count("history.incomplete")
+        return "outer-incomplete"
+    ctx.count("history.outer.oracle")
+    bad = oracle("swp-outer", None, http2, outer_offers or (), sel_outer)
+    if bad:
+        ctx.violation("history-outer:" + "+".join(bad), {**wit, "selected_outer": sel_outer})
+    # 2. CONNECT handled by the HTTP layer; upstream TLS established first (eager) -> its protocol is known, or not yet connected
+    Sink(c)
+    layers.ServerTLSLayer(c)
+    # upstream unknown = lazy connection strategy (no server connection yet); known = eager, upstream TLS done first
+    strategy = "lazy" if upstream is None else "eager"
+    if w.tctx.options.connection_strategy != strategy:
+        w.tctx.options.connection_strategy = strategy
+    if upstream is not None:
+        c.server.state = connection.ConnectionState.OPEN
+        c.server.tls = True
+        c.server.timestamp_tls_setup = 2.0
+        c.server.alpn = upstream
+    # 3. inner TLS on the same client connection
+    inner = layers.ClientTLSLayer(c)
+    sel_inner, hooks2 = layer_handshake(w, inner, client, inner_offers)
+    if sel_inner is None:
+        ctx.count("history.incomplete")
+        return "inner-incomplete"
+    ctx.count("history.inner.oracle")
+    if sel_outer != NONE:
+        ctx.count("history.inner_after_outer_alpn")
+    if sel_inner != NONE:
+        ctx.count("history.inner.selected_some")
+    bad = oracle("regular-inner", upstream, http2, inner_offers or (), sel_inner)
+    if bad:
+        ctx.violation("history-inner:" + "+".join(bad), {**wit, "selected_outer": sel_outer, "selected_inner": sel_inner,
+                                                           "hooks_inner": hooks2})
+    ctx.seen("history_hook_sequences", tuple(hooks + ["|"] + hooks2))
+    return f"outer={sel_outer if sel_outer == NONE else sel_outer.decode()},inner={sel_inner if sel_inner == NONE else cls_of(sel_inner)}"
+
+
 def cls_of(p: bytes):
     return p.decode() if p in PROTOS[:5] else "unknown"
 
@@ -202,10 +333,16 @@ def run(ctx):
     short_offers = [o for o in OFFERS if len(o) <= 2]
     hs_space = [(cfg, o) for cfg in CONFIGS for o in ([None] + (short_offers if ctx.tier == "quick" else OFFERS))]
     n_hs_enum = len(hs_space)
-    n_total = N_ENUM + n_hs_enum + (ctx.n_cases if ctx.tier == "thorough" else 0)
+    inner_lists = INNER_QUICK if ctx.tier == "quick" else [None] + short_offers
+    hist_space = [(oo, u, h, io) for oo in OUTER_OFFERS for u in UPSTREAMS for h in (True, False) for io in inner_lists]
+    if ctx.tier == "quick":
+        hist_space = [x for x in hist_space if x[0] in (None, (b"http/1.1",), (b"h2", b"http/1.1"))]
+    n_hist = len(hist_space)
+    n_fixed = N_ENUM + n_hs_enum + n_hist
+    n_total = n_fixed + (ctx.n_cases if ctx.tier == "thorough" else 0)
     try:
         for i in ctx.cases(n=n_total):
-            if i < N_ENUM + n_hs_enum and i % ctx.nworkers != ctx.worker and ctx.only_case is None:
+            if i < n_fixed and i % ctx.nworkers != ctx.worker and ctx.only_case is None:
                 continue
             if i < N_ENUM:
                 cfg = CONFIGS[i // len(OFFERS)]
@@ -228,6 +365,25 @@ def run(ctx):
                                  "offers": list(offers), "selected": selected} if i % 997 == 5 else None)
                 continue
             r = ctx.rng
+            hist = None
+            if N_ENUM + n_hs_enum <= i < n_fixed:
+                hist = hist_space[i - N_ENUM - n_hs_enum]
+            elif i >= n_fixed and r.random() < 0.3:
+                pool = PROTOS + [bytes(r.choice(b"abcxyz-/.0129") for _ in range(r.randint(1, 12)))]
+                hist = (r.choice(OUTER_OFFERS + [tuple(r.choice(pool) for _ in range(r.randint(1, 4)))]), r.choice(UPSTREAMS), r.random() < 0.5,
+                        tuple(r.choice(pool) for _ in range(r.randint(1, 6))))
+            if hist is not None:
+                oo, u, h, io = hist
+                try:
+                    outcome = run_history(ctx, w, oo, u, h, io)
+                except Exception as e:
+                    ctx.violation("history-raises", {"history": [list(oo) if oo else oo, u, h, list(io) if io else io], "exc": repr(e)})
+                    outcome = "raises"
+                ctx.case(("hist", tuple(cls_of(o) for o in oo) if oo is not None else None, u, h,
+                          tuple(cls_of(o) for o in io) if io is not None else None, outcome), nontrivial=bool(io),
+                         sample={"leg": "history", "outer_offers": list(oo) if oo else oo, "upstream": u, "http2": h,
+                                 "inner_offers": list(io) if io else io, "outcome": outcome} if i % 97 == 3 else None)
+                continue
             if i < N_ENUM + n_hs_enum:
                 cfg, offers = hs_space[i - N_ENUM]
             else:
@@ -251,5 +407,6 @@ def run(ctx):
                              "offers": list(eff), "client_sees": sel} if i % 499 == 3 else None)
         ctx.extra["enumerated_callback_combinations"] = N_ENUM
         ctx.extra["enumerated_handshake_combinations"] = n_hs_enum
+        ctx.extra["enumerated_two_handshake_histories"] = n_hist
     finally:
         w.close()
